@@ -2,13 +2,14 @@
    passes the table of the running Python, produced by the same function that writes gen/PrivateNets.v), so the
    runner itself does not depend on gen/. *)
 From Coq Require Import List Bool NArith ZArith.
-From PV Require Import Base.Str Base.Value Base.Wire Net.Arith Net.NetText Net.IPv4 Net.IPv6 Net.Public Run.RState.
+From PV Require Import Base.Str Base.Value Base.Wire Net.Arith Net.NetText Net.IPv4 Net.IPv6 Net.IPv6Print Net.Public Run.RState.
 Import ListNotations.
 Local Open Scope N_scope.
 
 Definition vN (n : N) : value := VInt (Z.of_N n).
 Definition enc_net4 (n : net) : value := VList [vN (fst n); vN (snd n); VStr (print4 n)].
-Definition enc_net6 (n : net) : value := VList [vN (fst n); vN (snd n); VStr (print6_full n)].
+(* address, prefix length, .exploded, str() *)
+Definition enc_net6 (n : net) : value := VList [vN (fst n); vN (snd n); VStr (print6_full n); VStr (print6 n)].
 Definition map_res {A B} (f : A -> B) (r : res A) : res B := match r with Ok a => Ok (f a) | Err e => Err e end.
 
 (* a typed CIDR field of a pycfmodel model: the ValueError of ipaddress surfaces as pydantic's ValidationError *)
@@ -21,7 +22,7 @@ Definition field6 (v : value) : res (option net) :=
 Definition reparse4 (r : res (option net)) : res (option net) :=
   match r with Ok (Some n) => map_res Some (as_validation (parse4 (print4 n))) | _ => r end.
 Definition reparse6 (r : res (option net)) : res (option net) :=
-  match r with Ok (Some n) => map_res Some (as_validation (parse6 (print6_full n))) | _ => r end.
+  match r with Ok (Some n) => map_res Some (as_validation (parse6 (print6 n))) | _ => r end.
 
 Definition enc_opt (f : net -> value) (o : option net) : value := match o with Some n => f n | None => VNull end.
 Definition opt_str (v : value) : option (option str) :=
@@ -59,5 +60,13 @@ Definition run17 (st : rstate) (op : N) (arg : value) : option (rstate * value) 
   (* membership / containment, used by the harness to cross-examine generated inputs *)
   | 1707, VList [VInt x; VInt a; VInt l; VInt w] =>
       Some (st, VBool (in_netb (Z.to_N w) (Z.to_N x) (Z.to_N a, Z.to_N l)))
+  (* str(IPv6Network((address, prefix length))) of a well-formed network (host bits clear); anything else is outside the model *)
+  | 1708, VList [VInt a; VInt l] =>
+      Some (st, enc_res (if (0 <=? a)%Z && (0 <=? l)%Z && wfb W6 (Z.to_N a, Z.to_N l)
+                         then Ok (VStr (print6 (Z.to_N a, Z.to_N l))) else Err EUndefined))
+  (* str(IPv6Address(address)) *)
+  | 1709, VList [VInt a] =>
+      Some (st, enc_res (if (0 <=? a)%Z && (Z.to_N a <? 2 ^ 128)
+                         then Ok (VStr (print_addr6 (Z.to_N a))) else Err EUndefined))
   | _, _ => None
   end.
